@@ -215,3 +215,389 @@ Example C11_nonvacuous_layout :
   api_of (lsm_get bytewise kp (outside_of ex_st) [7]%N 2) = Some [1]%N /\
   api_of (lsm_get bytewise kp ex_st [7]%N 2) = Some [1]%N.
 Proof. repeat split; vm_compute; reflexivity. Qed.
+
+(* ====================================================================================================
+   Transactions at BYTE level (Lsm/TxnBytes.v: db_transaction.go branch by branch over the byte-level DB state of
+   property C01 — memdb arrays, table files as bytes —, the manifest record codec of property C04, the batch
+   codec of C01; proofs: Lsm/TxnBytesProofs.v, Lsm/TxnManifestProofs.v).
+   What the environment contributes is an argument of each operation and universally quantified here: the heights
+   memdb.Put draws, the table FILE a private flush wrote or its failure, capacities, the outcome of every manifest
+   attempt of a Commit (ok / failed, record in the file or not, manifest too big), background reorganisations.
+   Contract assumed of the table writer (bop_pre: flush_ok; C13's writer theorems; evaluated at every flush
+   observed on the implementation): the file passes the format check and holds exactly the memdb's pairs.
+   The machine is the REPAIRED code (a failed Commit leaves db.seq alone; Discard consumes the numbers): the
+   behaviour before that repair is the refuted statement at the end.
+   ==================================================================================================== *)
+From GL Require Import Codec.Table Codec.TableCheck Codec.TblCrc Lsm.ReadPath Lsm.ReadPathMem Lsm.ReadPathProofs Lsm.ReorgProofs Lsm.CertProofs
+  Lsm.IterPath Lsm.IterPathProofs Gen.Inst Gen.InstTbl Gen.InstMem Gen.BloomInst Gen.ConstsOkMem Gen.InstRecordOk.
+From GL Require Import Lsm.TxnBytes Lsm.TxnBytesProofs Lsm.TxnManifestProofs.
+From GL Require Mem.MemDB Codec.Batch Codec.SessionRecord Codec.SessionRecordSpec Iter.Cursor Iter.DBIter
+  Store.Crash Store.Faults Store.FaultsProofs Props.C01.
+From Coq Require Import ZArith.
+
+(* (9) C11_txn_bytes_refines.  The byte-level transaction machine refines the history-level machine of Lsm/Txn.v
+   (extended by the sequence-number skip of a discarded failed commit, see (15)): for EVERY operation sequence —
+   OpenTransaction, Put / Delete / Write with private flushes wherever the memdb is full (and failing flushes),
+   iterators held across flushes (the memdb is then replaced, not reset), Commit with any outcomes of its three
+   manifest attempts, Discard, background reorganisations — the relation wrel (same sequence number, same stored
+   entries, the open transaction holds exactly the records APPLIED so far stamped above db.seq: the abstraction of
+   private memdb + private tables to t_writes) and the invariants of the byte world (winv: C14's invariant of the
+   private memdb, the format check of every private table, every private entry with its own sequence number in
+   (db.seq, tr.seq], tables older than the memdb) are kept; the history-level steps are abs_run: the records a
+   call applied, one commit step for a successful Commit, nothing for a failed one. *)
+Theorem C11_txn_bytes_refines :
+  forall c, comparer_ok c -> forall p, kparams_ok p -> (keyTypeSeek p <= keyTypeVal p)%N ->
+  forall mp, MemDB.mparams_ok mp ->
+  forall tp crc decompress fname ufc verify ri rp ops w s,
+  wrel c mp tp crc decompress fname ufc verify ri w s ->
+  winv c p mp tp crc decompress fname ufc verify ri w ->
+  bops_pre c p mp tp crc decompress fname ufc verify ri rp w ops ->
+  wrel c mp tp crc decompress fname ufc verify ri (brun_from c p mp rp false w ops)
+       (xrun s (abs_run c p mp tp crc decompress fname ufc verify ri rp w ops)) /\
+  winv c p mp tp crc decompress fname ufc verify ri (brun_from c p mp rp false w ops).
+Proof.
+  intros c ok p pok sv mp mpok tp crc decompress fname ufc verify ri rp ops w s.
+  exact (brun_refines c ok p pok sv mp mpok tp crc decompress fname ufc verify ri rp ops w s).
+Qed.
+Print Assumptions C11_txn_bytes_refines.
+
+(* ... one step at a time (the statement the induction uses) *)
+Theorem C11_txn_bytes_step_refines :
+  forall c, comparer_ok c -> forall p, kparams_ok p -> (keyTypeSeek p <= keyTypeVal p)%N ->
+  forall mp, MemDB.mparams_ok mp ->
+  forall tp crc decompress fname ufc verify ri rp w s o,
+  wrel c mp tp crc decompress fname ufc verify ri w s ->
+  winv c p mp tp crc decompress fname ufc verify ri w ->
+  bop_pre c p mp tp crc decompress fname ufc verify ri rp w o ->
+  step_ok c p mp tp crc decompress fname ufc verify ri rp w s o.
+Proof.
+  intros c ok p pok sv mp mpok tp crc decompress fname ufc verify ri rp w s o.
+  exact (bstep_refines c ok p pok sv mp mpok tp crc decompress fname ufc verify ri rp w s o).
+Qed.
+Print Assumptions C11_txn_bytes_step_refines.
+
+(* (10) C11_txn_get_bytes.  Transaction.Get computed on the BYTES — DB.get(tr.mem, tr.tables, key, tr.seq): the
+   private memdb's arrays first, the DB's memdbs, the private table files walked as "level -1" in front of the
+   version's files — returns, in every state the machine reaches (winv), the base at open overlaid with the
+   records applied so far; [m] is any plain map that answers the reads of the shared state at db.seq (by
+   C01_get_is_map_bytes the map of the committed writes).  No panic, no error, fuel suffices. *)
+Theorem C11_txn_get_bytes :
+  forall c, comparer_ok c -> forall p, kparams_ok p -> (keyTypeSeek p <= keyTypeVal p)%N ->
+  forall mp, MemDB.mparams_ok mp ->
+  forall tp crc decompress fname ufc verify ri w t wr m k,
+  winv c p mp tp crc decompress fname ufc verify ri w -> tw_tr w = Some t ->
+  applied_rel c mp tp crc decompress fname ufc verify ri (tw_seq w) wr t ->
+  (forall k', History.res p (newest c k' (tw_seq w) (all_entries (abs c mp tp crc decompress fname ufc verify ri (tw_db w))) None) =
+              a_get c k' m) ->
+  wf_bytes k ->
+  option_map bapi (t_get c p mp tp crc decompress fname ufc verify w k) =
+  Some (Some (a_get c k (fold_left (a_apply c p) wr m))).
+Proof.
+  intros c ok p pok sv mp mpok tp crc decompress fname ufc verify ri w t wr m k.
+  exact (txn_get_overlay c ok p pok sv mp mpok tp crc decompress fname ufc verify ri w t wr m k).
+Qed.
+Print Assumptions C11_txn_get_bytes.
+
+(* ... and both kinds of read, computed on the bytes, are the reads of the related history-level state: the
+   theorems (1)-(7) about out_get / txn_get hold of DB.Get and Transaction.Get as computed on bytes *)
+Theorem C11_reads_refine_bytes :
+  forall c, comparer_ok c -> forall p, kparams_ok p -> (keyTypeSeek p <= keyTypeVal p)%N ->
+  forall mp, MemDB.mparams_ok mp ->
+  forall tp crc decompress fname ufc verify ri w s k,
+  wrel c mp tp crc decompress fname ufc verify ri w s ->
+  winv c p mp tp crc decompress fname ufc verify ri w -> wf_bytes k ->
+  (forall q, (q <= keyMaxSeq p)%N ->
+     bapi (o_get c p mp tp crc decompress fname ufc verify w k q) = Some (out_get c p s k q)) /\
+  (tw_tr w <> None ->
+     option_map bapi (t_get c p mp tp crc decompress fname ufc verify w k) = Some (Some (txn_get c p s k))).
+Proof.
+  intros c ok p pok sv mp mpok tp crc decompress fname ufc verify ri w s k.
+  exact (reads_refine c ok p pok sv mp mpok tp crc decompress fname ufc verify ri w s k).
+Qed.
+Print Assumptions C11_reads_refine_bytes.
+
+(* (11) C11_txn_iter_bytes.  Transaction.NewIterator computed on the bytes (Lsm/IterPath.v with auxm = tr.mem,
+   auxt = tr.tables): for every range and every call sequence the reference cursor over the live pairs at tr.seq
+   of everything the transaction consults; and those pairs are exactly the (key, value) Transaction.Get finds. *)
+Theorem C11_txn_iter_bytes :
+  forall c, comparer_ok c -> forall p, kparams_ok p -> (keyTypeSeek p <= keyTypeVal p)%N ->
+  forall mp, MemDB.mparams_ok mp ->
+  forall tp crc decompress fname ufc verify ri strict w t slice fuel ms,
+  winv c p mp tp crc decompress fname ufc verify ri w -> tw_tr w = Some t -> bs_mem (tw_db w) <> None ->
+  range_wf slice -> Forall umove_wf ms ->
+  (length (all_entries (txn_state c mp tp crc decompress fname ufc verify ri t (tw_db w))) < fuel)%nat ->
+  t_iter c p mp tp crc decompress fname ufc verify strict fuel w slice ms =
+    Some (Some (Cursor.run_cursor (cmp c) (range_view c slice
+                  (DBIter.live_pairs c p (tt_seq t)
+                     (db_entries c mp tp crc decompress fname ufc verify ri (Some (tt_mem t)) (tt_tables t) (tw_db w)))) ms)) /\
+  (forall u v, wf_bytes u ->
+     (In (u, v) (DBIter.live_pairs c p (tt_seq t)
+                   (db_entries c mp tp crc decompress fname ufc verify ri (Some (tt_mem t)) (tt_tables t) (tw_db w))) <->
+      t_get c p mp tp crc decompress fname ufc verify w u = Some (BRes (GFound v)))).
+Proof.
+  intros c ok p pok sv mp mpok tp crc decompress fname ufc verify ri strict w t slice fuel ms.
+  exact (txn_iter_bytes c ok p pok sv mp mpok tp crc decompress fname ufc verify ri strict w t slice fuel ms).
+Qed.
+Print Assumptions C11_txn_iter_bytes.
+
+(* (12) C11_outside_unaffected_bytes.  What DB.Get / Snapshot.Get are computed from — the DB's memdbs, the version,
+   db.seq — is not touched by any operation of the open transaction (Put, Delete, Write, flushes, iterators), nor
+   by a Commit that fails; the private tables are not an argument of an outside read at all. *)
+Theorem C11_outside_unaffected_bytes :
+  forall c p mp tp crc decompress fname ufc verify rp w o,
+  (txn_local o = true \/ (exists fo atts, o = BCommit fo atts /\ snd (bstep c p mp rp false w o) <> TOk)) ->
+  tw_db (fst (bstep c p mp rp false w o)) = tw_db w /\ tw_seq (fst (bstep c p mp rp false w o)) = tw_seq w /\
+  forall k q, o_get c p mp tp crc decompress fname ufc verify (fst (bstep c p mp rp false w o)) k q =
+              o_get c p mp tp crc decompress fname ufc verify w k q.
+Proof.
+  intros c p mp tp crc decompress fname ufc verify rp w o.
+  exact (outside_unaffected c p mp tp crc decompress fname ufc verify rp w o).
+Qed.
+Print Assumptions C11_outside_unaffected_bytes.
+
+(* ... and inside the commit window (the private tables already sit in level 0 of the version, db.seq is not
+   yet set) a read at any sequence number up to db.seq, computed on the bytes of the NEW version, is the read
+   computed before the commit *)
+Theorem C11_commit_window_bytes :
+  forall c, comparer_ok c -> forall p, kparams_ok p -> (keyTypeSeek p <= keyTypeVal p)%N ->
+  forall mp, MemDB.mparams_ok mp ->
+  forall tp crc decompress fname ufc verify ri w t k q,
+  sinv c p mp tp crc decompress fname ufc verify ri w ->
+  tinv c p mp tp crc decompress fname ufc verify ri (tw_seq w) t -> tt_tables t <> [] -> wf_bytes k -> (q <= tw_seq w)%N ->
+  db_get_bytes c p mp tp crc decompress fname ufc verify (installed (tw_db w) (tt_tables t)) k q =
+  db_get_bytes c p mp tp crc decompress fname ufc verify (tw_db w) k q.
+Proof.
+  intros c ok p pok sv mp mpok tp crc decompress fname ufc verify ri w t k q.
+  exact (commit_window_bytes c ok p pok sv mp mpok tp crc decompress fname ufc verify ri w t k q).
+Qed.
+Print Assumptions C11_commit_window_bytes.
+
+(* (13) C11_commit_is_one_record.  tr.rec holds, in every state the machine reaches, the private tables as
+   level-0 additions and nothing else a record writes (C11_rec_inv_reachable).  An attempt of Commit that goes
+   through flushManifest and succeeds appends exactly ONE record to the manifest; decoded by the manifest codec
+   (Codec/SessionRecord.v) it is the record built from next-file-num, seq-num = tr.seq and the private tables at
+   level 0 ... *)
+Theorem C11_rec_inv_reachable : forall c kp mp rp, SessionRecordSpec.rparams_ok rp -> forall sof w o,
+  wrec_inv rp w -> wrec_inv rp (fst (bstep c kp mp rp sof w o)).
+Proof. exact bstep_rec_inv. Qed.
+Print Assumptions C11_rec_inv_reachable.
+
+Theorem C11_commit_is_one_record : forall rp, SessionRecordSpec.rparams_ok rp -> forall w t a lvls,
+  rec_inv rp t -> (tw_mfail w || ai_rot a) = false -> ai_ok a = true ->
+  SessionRecordSpec.fields_ok (commit_fields (map (at_of 0) (tt_tables t)) (tt_seq t) (ai_nf a)) ->
+  exists b w' r',
+    session_commit rp w (SessionRecord.set_seq rp (tt_rec t) (tt_seq t)) (Some (tt_seq t)) lvls a = Some (w', r', true) /\
+    tw_man w' = tw_man w ++ [b] /\
+    SessionRecord.decode rp SessionRecord.sr_empty b =
+      SessionRecord.DOk (SessionRecordSpec.build rp (commit_fields (map (at_of 0) (tt_tables t)) (tt_seq t) (ai_nf a))).
+Proof. exact commit_appends_one_record. Qed.
+Print Assumptions C11_commit_is_one_record.
+
+(* ... and replayed by session.recover's model behind ANY manifest (C04_manifest_replay) it changes exactly this:
+   the sequence number becomes tr.seq, the next file number the one it carries, and — for file numbers that are
+   new at level 0 — the live tables are the old ones plus exactly the private tables *)
+Theorem C11_commit_record_replay : forall rp, SessionRecordSpec.rparams_ok rp ->
+  forall strict cmp recs rs b adds seq nf j pj nf0 q live cps,
+  Forall2 (fun b r => SessionRecord.decode rp SessionRecord.sr_empty b = SessionRecord.DOk r) recs rs ->
+  SessionRecord.decode rp SessionRecord.sr_empty b = SessionRecord.DOk (SessionRecordSpec.build rp (commit_fields adds seq nf)) ->
+  SessionRecordSpec.replay_result rp cmp rs = SessionRecordSpec.SpecOk j pj nf0 q live cps ->
+  SessionRecordSpec.agrees (SessionRecord.session_recover rp strict cmp (recs ++ [b]))
+    (SessionRecordSpec.SpecOk j pj nf seq (fold_left SessionRecordSpec.live_add adds live) cps) /\
+  (adds_fresh live adds -> Forall (fun a => SessionRecord.at_level a = 0%Z) adds ->
+   forall x, In x (fold_left SessionRecordSpec.live_add adds live) <-> In x adds \/ In x live).
+Proof.
+  intros rp pok strict cmp recs rs b adds seq nf j pj nf0 q live cps HF Hb Hr. split.
+  - destruct (commit_crash_atomic rp pok strict cmp recs rs b adds seq nf j pj nf0 q live cps (S (length recs)) HF Hb Hr)
+      as [(Hk & _)|(_ & E & A)]; [exfalso; apply (Nat.nle_succ_diag_l _ Hk)|]. rewrite <- E. exact A.
+  - intros Hf Hl. exact (live_adds_fresh adds live Hf Hl).
+Qed.
+Print Assumptions C11_commit_record_replay.
+
+(* (14) C11_commit_crash_atomic.  A crash leaves a prefix of the manifest file's bytes, hence (C04_byte_cut_is_record_image:
+   a torn record is never delivered) a prefix of its records.  For EVERY such prefix recovery either replays a
+   prefix of the manifest as it was BEFORE the commit — the transaction's record is not read: wholly out — or the
+   whole manifest with the record: sequence number tr.seq and ALL private tables live: wholly in.  Interface
+   hypotheses, explicit: the records before the commit decode (rs), the commit's record decodes to the record of
+   (13), the manifest before the commit replays (SpecOk). *)
+Theorem C11_commit_crash_atomic : forall rp, SessionRecordSpec.rparams_ok rp ->
+  forall strict cmp recs rs b adds seq nf j pj nf0 q live cps k,
+  Forall2 (fun b r => SessionRecord.decode rp SessionRecord.sr_empty b = SessionRecord.DOk r) recs rs ->
+  SessionRecord.decode rp SessionRecord.sr_empty b = SessionRecord.DOk (SessionRecordSpec.build rp (commit_fields adds seq nf)) ->
+  SessionRecordSpec.replay_result rp cmp rs = SessionRecordSpec.SpecOk j pj nf0 q live cps ->
+  let img := firstn k (recs ++ [b]) in
+  ((k <= length recs)%nat /\ img = firstn k recs /\
+     SessionRecordSpec.agrees (SessionRecord.session_recover rp strict cmp img) (SessionRecordSpec.replay_result rp cmp (firstn k rs))) \/
+  ((length recs < k)%nat /\ img = recs ++ [b] /\
+     SessionRecordSpec.agrees (SessionRecord.session_recover rp strict cmp img)
+       (SessionRecordSpec.SpecOk j pj nf seq (fold_left SessionRecordSpec.live_add adds live) cps)).
+Proof. exact commit_crash_atomic. Qed.
+Print Assumptions C11_commit_crash_atomic.
+
+(* ... composed with the fault model of property C08 (Store/Faults.v: FTxnBegin / FTxnCommit / FTxnCommitFail /
+   FTxnDiscard; the transaction is ONE batch of n records there): after ANY history of succeeding and failing
+   steps, a Commit that returns nil in a state with the transaction open on an idle journal acknowledges the
+   transaction's batch, and (C08_faults_safe) every later crash image or clean reopen, whatever fails afterwards,
+   recovers it — whole, batches being the atoms. *)
+Theorem C11_commit_durable_under_faults : forall ops n fl later img L,
+  let s := Faults.frun ops in
+  Faults.f_txn s = Some (n, fl) -> n <> 0%N -> Faults.f_mfail s = false -> Faults.f_pend s = false ->
+  Crash.p_frozen (Faults.f_p s) = None -> Crash.j_recs (Crash.p_live (Faults.f_p s)) = [] ->
+  let s' := Faults.frun ((ops ++ [Faults.FTxnCommit]) ++ later) in
+  Crash.is_image (Faults.f_p s') img -> Faults.sublist L (Crash.recover img) ->
+  (forall b, In b (Crash.recover img) -> ~ In b L -> In b (Faults.f_unknown s')) ->
+  Faults.fres s Faults.FTxnCommit = Faults.ROk /\
+  In {| Crash.b_seq := Crash.p_seq (Faults.f_p s) + 1; Crash.b_n := n |} L.
+Proof.
+  intros ops n fl later img L s Ht Hn Hmf Hpe Hfr Hlv s' Himg Hsub Hunk.
+  assert (Hack : In {| Crash.b_seq := Crash.p_seq (Faults.f_p s) + 1; Crash.b_n := n |}
+                    (Crash.p_acked (Faults.f_p (Faults.fstep s Faults.FTxnCommit)))).
+  { unfold Faults.fstep. rewrite Ht, Hmf, Hpe. unfold Faults.committed. cbn [Faults.f_p]. unfold Crash.pstep.
+    rewrite Hfr, Hlv. apply N.eqb_neq in Hn. rewrite Hn. cbn [Crash.p_acked]. apply in_or_app. right. left. reflexivity. }
+  split.
+  - unfold Faults.fres. rewrite Ht, Hmf, Hpe. reflexivity.
+  - destruct (FaultsProofs.faults_safe ((ops ++ [Faults.FTxnCommit]) ++ later) img L Himg Hsub Hunk) as (Hacked & _).
+    assert (Eapp : forall a b, Faults.frun (a ++ b) = Faults.frun_from (Faults.frun a) b)
+      by (intros a b; unfold Faults.frun, Faults.frun_from; apply fold_left_app).
+    apply Hacked. unfold s'. rewrite Eapp. apply (FaultsProofs.acked_monotone_run _ later); [apply FaultsProofs.finv_run|].
+    rewrite Eapp. unfold Faults.frun_from. cbn [fold_left]. exact Hack.
+Qed.
+Print Assumptions C11_commit_durable_under_faults.
+
+(* (15) C11_failed_write_partial.  What a Transaction.Write that returned an error leaves: exactly a proper PREFIX of
+   the batch applied — the records before the one whose private flush failed (the table file could not be written);
+   the transaction stays open and consistent (winv), holds the earlier records plus that prefix, its later reads
+   see the prefix ((10) with wr ++ prefix) and a later successful Commit publishes it with everything else ((9):
+   the commit step of the history machine writes all records held).  This is NOT a violation of the property as
+   written: atomicity is Commit's (all records the transaction holds become visible at once, or none), the caller
+   of the failed Write got an error and decides — Discard, or go on and Commit; the oversized DB.Write, the only
+   place where goleveldb itself wraps a batch in a transaction, discards (C11_large_batch_all_or_nothing). *)
+Theorem C11_failed_write_partial :
+  forall c, comparer_ok c -> forall p, kparams_ok p -> (keyTypeSeek p <= keyTypeVal p)%N ->
+  forall mp, MemDB.mparams_ok mp ->
+  forall tp crc decompress fname ufc verify ri rp w t wr b os recs,
+  winv c p mp tp crc decompress fname ufc verify ri w -> tw_tr w = Some t ->
+  applied_rel c mp tp crc decompress fname ufc verify ri (tw_seq w) wr t ->
+  Batch.batch_records b = Some recs -> Batch.batch_len b <> 0%N ->
+  puts_pre c p mp tp crc decompress fname ufc verify ri rp t recs os ->
+  let '(w', r) := w_write c p mp rp w b os in
+  exists t' post, recs = applied c p mp rp t recs os ++ post /\ tw_tr w' = Some t' /\
+    tw_db w' = tw_db w /\ tw_seq w' = tw_seq w /\ tt_closed t' = false /\
+    tinv c p mp tp crc decompress fname ufc verify ri (tw_seq w) t' /\
+    applied_rel c mp tp crc decompress fname ufc verify ri (tw_seq w) (wr ++ applied c p mp rp t recs os) t' /\
+    match r with
+    | TOk => post = []
+    | TErr e => e = ETable /\ post <> []
+    | _ => False
+    end.
+Proof.
+  intros c ok p pok sv mp mpok tp crc decompress fname ufc verify ri rp w t wr b os recs.
+  exact (failed_write_partial c ok p pok sv mp mpok tp crc decompress fname ufc verify ri rp w t wr b os recs).
+Qed.
+Print Assumptions C11_failed_write_partial.
+
+(* (16) The sequence-number skip of a discarded failed commit is unobservable: no stored entry carries the skipped
+   numbers, so every read of the history-level state, at every sequence number, is unchanged (and so is what
+   was ever written). *)
+Theorem C11_seq_skip_unobservable : forall c p s d k q,
+  out_get c p (x_skip s d) k q = out_get c p s k q /\ h_hist (ts_h (x_skip s d)) = h_hist (ts_h s) /\
+  ts_txn (x_skip s d) = ts_txn s.
+Proof. intros. repeat split. Qed.
+Print Assumptions C11_seq_skip_unobservable.
+
+(* (17) REFUTED: the code between the repairs 50c909c and the one of this round set db.seq := tr.seq as soon as a
+   commit attempt failed, while the transaction stays open and may be committed by a retry.  A snapshot taken in
+   between is pinned at tr.seq, which covers every sequence number of the transaction: once the retry installs the
+   tables the snapshot shows the transaction's writes — its view changes, and it shows writes of a transaction
+   that was not committed when it was taken.  Witness at the history level (the hypothesis q <= h_seq h of
+   C11_commit_window_unobservable is exactly what that code broke): base 7 -> 1 at seq 1; the transaction
+   overwrites 7 at seq 2; after the failed attempt h_seq = 2; the snapshot at 2 reads 1 before the retry
+   installs the tables and 9 after. *)
+Definition ex_h_failed : hstate :=
+  {| h_seq := 2; h_store := [ex_en 7 1 1 1]; h_snaps := [2%N]; h_hist := [ex_en 7 1 1 1] |}.
+Definition ex_t_failed : txn := {| t_seq := 2; t_writes := [ex_en 7 2 1 9] |}.
+Theorem C11_failed_commit_publishes_seq_refuted :
+  store_get bytewise kp ex_h_failed [7]%N 2 = Some [1]%N /\
+  store_get bytewise kp (publish_version ex_h_failed ex_t_failed) [7]%N 2 = Some [9]%N /\
+  (* with db.seq left alone (the repaired code) the snapshot is pinned at 1 and keeps reading 1 *)
+  store_get bytewise kp (publish_version {| h_seq := 1; h_store := [ex_en 7 1 1 1]; h_snaps := [1%N]; h_hist := [ex_en 7 1 1 1] |}
+                                          ex_t_failed) [7]%N 1 = Some [1]%N.
+Proof. repeat split; vm_compute; reflexivity. Qed.
+Print Assumptions C11_failed_commit_publishes_seq_refuted.
+
+(* ---- Non-vacuity of the byte-level theorems: a concrete world ----
+   The DB is C01's example state (three table files written by goleveldb: level 0 = files 8 and 5, level 1 = file 4)
+   with an empty write buffer, db.seq = 13.  OpenTransaction; Put a; Delete c; the reads; Commit: its flush writes
+   a table with the MODEL writer of property C13 (Codec/Table.v twrite) from the private memdb's pairs — the file
+   satisfies the writer's contract flush_ok by computation —, one manifest attempt, successful.  Every hypothesis
+   of the theorems above holds of this run (winv of the initial world, bops_pre of the operation sequence), and the
+   machine, evaluated, reads: inside a = the Put, c deleted, b from level 1, d absent; outside meanwhile the base;
+   after Commit everyone reads the overlay at db.seq = 15 and the base at the old sequence number 13; the manifest
+   holds ONE record. *)
+Definition exb_db : bstate := mkBS (mem_of bytewise mp []) None [[C01.ex_file8; C01.ex_file5]; [C01.ex_file4]].
+Definition exb_w0 : tworld := mkTW exb_db 13 [] false 3%Z 13 [99]%N [] None [].
+Definition exb_ufc : bytes -> N -> bytes -> bool := bloom_ufc bp (BinInt.Z.of_N 10).
+Definition exb_in (h : N) : put_in := mkPI h FlErr 4096.
+Definition exb_ops3 : list bop :=
+  [BOpen 4096; BPut (keyTypeVal kp) [97]%N [1; 2]%N (exb_in 1); BPut (keyTypeDel kp) [99]%N [] (exb_in 2)].
+Definition exb_w3 : tworld := brun_from bytewise kp mp rp false exb_w0 exb_ops3.
+Definition exb_pairs : list (bytes * bytes) := match tw_tr exb_w3 with Some t => mem_pairs mp (tt_mem t) | None => [] end.
+Definition exb_file : tfile :=
+  match twrite tblp tbl_crc (fun x => x) (ibc bytewise) 4096 2 false None exb_pairs with
+  | Some f => mkTF 9 (fst (hd ([], []) exb_pairs)) (fst (last exb_pairs ([], []))) f
+  | None => no_tfile
+  end.
+Definition exb_commit : bop := BCommit (FlOk exb_file 4096) [mkAI true false false 10%Z].
+Definition exb_w4 : tworld := fst (bstep bytewise kp mp rp false exb_w3 exb_commit).
+Definition exb_tget (w : tworld) (k : N) :=
+  option_map bapi (t_get bytewise kp mp tblp tbl_crc C01.ex_nodec None exb_ufc true w [k]).
+Definition exb_oget (w : tworld) (k s : N) := bapi (o_get bytewise kp mp tblp tbl_crc C01.ex_nodec None exb_ufc true w [k] s).
+
+Lemma exb_winv : winv bytewise kp mp tblp tbl_crc C01.ex_nodec None exb_ufc true 2 exb_w0.
+Proof.
+  split; [|exact I]. constructor; cbn [exb_w0 tw_db tw_seq].
+  - constructor.
+    + intros d H. split.
+      * apply (mem_of_inv bytewise bytewise_ok mp mp_ok [] d); [constructor|exact H].
+      * cbn [bs_mem exb_db] in H. assert (K : match mem_of bytewise mp [] with Some d => mem_keys_okb kp mp d | None => false end = true)
+          by (vm_compute; reflexivity). rewrite H in K. exact K.
+    + intros d H. discriminate.
+    + apply Forall_cons; [apply Forall_cons; [vm_compute; reflexivity | apply Forall_cons; [vm_compute; reflexivity | apply Forall_nil]]
+                         | apply Forall_cons; [apply Forall_cons; [vm_compute; reflexivity | apply Forall_nil] | apply Forall_nil]].
+    + apply (wf_fullb_sound bytewise bytewise_ok kp). vm_compute. reflexivity.
+  - reflexivity.
+  - vm_compute. reflexivity.
+  - assert (H : forallb (fun x => (e_seq x <=? 13)%N)
+                  (all_entries (abs bytewise mp tblp tbl_crc C01.ex_nodec None exb_ufc true 2 exb_db)) = true) by (vm_compute; reflexivity).
+    intros x Hx. rewrite forallb_forall in H. apply N.leb_le. apply H. exact Hx.
+  - apply uniqb_uniq_in. vm_compute. reflexivity.
+  - vm_compute. discriminate.
+Qed.
+
+Example C11_bytes_nonvacuous :
+  winv bytewise kp mp tblp tbl_crc C01.ex_nodec None exb_ufc true 2 exb_w0 /\
+  bops_pre bytewise kp mp tblp tbl_crc C01.ex_nodec None exb_ufc true 2 rp exb_w0 (exb_ops3 ++ [exb_commit]) /\
+  (* inside: the overlay; outside meanwhile: the base *)
+  map (exb_tget exb_w3) [97; 98; 99; 100]%N =
+    [Some (Some (Some [1; 2])); Some (Some (Some [98; 49])); Some (Some None); Some (Some None)]%N /\
+  map (fun k => exb_oget exb_w3 k 13) [97; 98; 99]%N = [Some None; Some (Some [98; 49]); Some (Some [99; 51])]%N /\
+  option_map tt_seq (tw_tr exb_w3) = Some 15%N /\ tw_seq exb_w3 = 13%N /\
+  (* Commit: everyone reads the overlay at the new sequence number, the base at the old one; one record *)
+  snd (bstep bytewise kp mp rp false exb_w3 exb_commit) = TOk /\ tw_seq exb_w4 = 15%N /\ tw_tr exb_w4 = None /\
+  map (fun k => exb_oget exb_w4 k 15) [97; 98; 99]%N = [Some (Some [1; 2]); Some (Some [98; 49]); Some None]%N /\
+  map (fun k => exb_oget exb_w4 k 13) [97; 98; 99]%N = [Some None; Some (Some [98; 49]); Some (Some [99; 51])]%N /\
+  length (tw_man exb_w4) = 1%nat.
+Proof.
+  split; [exact exb_winv|]. split.
+  - cbn [app exb_ops3 bops_pre bop_pre]. split; [exact I|]. split.
+    { vm_compute. repeat split; auto; discriminate. }
+    split.
+    { vm_compute. repeat split; auto; discriminate. }
+    split; [|exact I].
+    change (fst (bstep bytewise kp mp rp false (fst (bstep bytewise kp mp rp false (fst (bstep bytewise kp mp rp false exb_w0 (BOpen 4096)))
+              (BPut (keyTypeVal kp) [97]%N [1; 2]%N (exb_in 1)))) (BPut (keyTypeDel kp) [99]%N [] (exb_in 2)))) with exb_w3.
+    assert (E : exists t, tw_tr exb_w3 = Some t /\ tfile_okb bytewise kp tblp tbl_crc C01.ex_nodec None exb_ufc true 2 exb_file = true /\
+                          tf_pairs bytewise tblp tbl_crc C01.ex_nodec None exb_ufc true 2 exb_file = mem_pairs mp (tt_mem t)).
+    { eexists. split; [vm_compute; reflexivity|]. split; vm_compute; reflexivity. }
+    destruct E as (t & Et & E1 & E2). cbn [bop_pre exb_commit]. rewrite Et. split; assumption.
+  - repeat split; vm_compute; reflexivity.
+Qed.
